@@ -322,6 +322,7 @@ def r28_functions(ctx, specs, rule='R28'):
     n = 0
     for q, allowed in specs:
         fi = q if hasattr(q, 'qualname') else ctx.repo.func(q)
+        fi = ctx.N(fi)      # a loop that moved into a chained generator / helper is still this function's loop
         lps = loops_of(fi)
         if not lps:
             run.fail(rule, fi.where, fi.qualname, 'no loop', 'row-wise function has no loop any more')
